@@ -919,11 +919,14 @@ class C13(Property):
                 (hmmer.subprocessing.run_hmmscan, hmmer.pfamdb.get_pfam_id_from_name,
                  hmmer.pfamdb.get_pfam_cutoffs, hmmer.fasta.get_fasta_from_features) = saved
             out: List[List[List[int]]] = [[] for _ in range(ngenes)]
+            self._last_record = []
             for h in res.hits:
-                out[int(h.locus_tag[1:])].append([HM_IDS.index(h.identifier), h.protein_start, h.protein_end,
-                                                 int(round(h.score * 4))])
+                hit = [HM_IDS.index(h.identifier), h.protein_start, h.protein_end, int(round(h.score * 4))]
+                out[int(h.locus_tag[1:])].append(hit)
+                self._last_record.append([int(h.locus_tag[1:]), hit])
             return out
         base = run(case["raw"])
+        record = list(self._last_record)      # HmmerResults.hits in the order returned
         prng = random.Random(case.get("pseed", 0))
         bad = None
         for _ in range(4 if case.get("filter", True) else 0):    # unfiltered: hmmscan order is kept by design
@@ -933,7 +936,7 @@ class C13(Property):
             if got != base:
                 bad = {"order": o, "out": got}
                 break
-        return {"genes": base, "perm_bad": bad}
+        return {"genes": base, "record": record, "perm_bad": bad}
 
     @staticmethod
     def _qr(genes: List[List[List[int]]], names: List[str]) -> List[Any]:
@@ -1053,7 +1056,7 @@ class C13(Property):
             line.update({"cut": case["cut"], "eq": case["eq"], "genes": self._group(case["raw"], case["ngenes"])})
         elif kind == "runhmmer":
             line.update({"cut": case["cut"], "min": case["min"], "maxev": case["maxev"], "genes": self._group(case["raw"]),
-                         "filter": case.get("filter", True)})
+                         "filter": case.get("filter", True), "raw": case["raw"]})
         elif kind == "refinerec":
             line.update({"lens": case["lens"], "reg": REG, "nb": case["nb"], "raw": case["raw"], "ngenes": case["ngenes"]})
         elif kind == "domains":
@@ -1256,7 +1259,7 @@ class C13(Property):
 
     def judge_runhmmer(self, case: Dict[str, Any], obs: Dict[str, Any], drv: Dict[str, Any]) -> Judgement:
         model = [m.get("ok") for m in drv["model"]]
-        corr = obs["genes"] == model
+        corr = obs["genes"] == model and obs.get("record", drv["record"]) == drv["record"]
         spec_ok, detail = True, ""
         if obs["perm_bad"] is not None:
             spec_ok, detail = False, f"order dependence: {obs['genes']} vs {obs['perm_bad']}"
@@ -1266,8 +1269,18 @@ class C13(Property):
                 spec_ok, detail = False, f"a hit at or below the minimum score was returned: {hits}"
             if any(not (evalue.get((g, *h), case["maxev"]) < case["maxev"]) for h in hits):
                 spec_ok, detail = False, f"a hit at or above the maximum e-value (or not a raw hit) was returned: {hits}"
+        # the returned list is grouped by locus, loci in order of first appearance among the passing hits
+        if spec_ok and case.get("filter", True) and "record" in obs:
+            loci = [g for g, _ in obs["record"]]
+            first = []
+            for r in case["raw"]:
+                if r[4] > case["min"] and r[5] < case["maxev"] and r[0] not in first:
+                    first.append(r[0])
+            grouped = [g for i, g in enumerate(loci) if i == 0 or loci[i - 1] != g]
+            if grouped != [g for g in first if g in loci]:
+                spec_ok, detail = False, f"hits not grouped by locus in order of first appearance {first}: {loci}"
         if not corr and not detail:
-            detail = f"model {drv['model']} vs implementation {obs['genes']}"
+            detail = f"model {drv['model']} / {drv['record']} vs implementation {obs['genes']} / {obs.get('record')}"
         return Judgement(corr, spec_ok, nontrivial=bool(drv["nontrivial"]), tags=("runhmmer",), detail=detail)
 
     def judge_domains(self, case: Dict[str, Any], obs: Dict[str, Any], drv: Dict[str, Any]) -> Judgement:
